@@ -284,7 +284,7 @@ func genSuffixText(t *rapid.T, maxLen int) (text []byte, family string) {
 		reps := rapid.IntRange(4, 8).Draw(t, "reps")
 		rot := rapid.IntRange(0, len(w)-1).Draw(t, "rot")
 		total := len(w)*reps - rapid.IntRange(0, 3).Draw(t, "cut")
-		if total > maxLen && maxLen >= 64 {
+		if total > maxLen {
 			total = maxLen
 		}
 		for i := 0; i < total; i++ {
